@@ -171,4 +171,7 @@ OperandsUnchanged == [][Heap' = Heap]_vars
 
 \* export: print every history of length MaxHist (one JSON line), and the shorter ones that are maximal
 Export == Len(hist) # MaxHist \/ MaxHist = 0 \/ PrintT(ToJson([hist |-> hist]))
+\* state cover: with VIEW <<memo, synth>> TLC keeps, for every DISTINCT model state, the history by which breadth-first search first
+\* reached it (a shortest path); printing it for every distinct state gives one replayable behaviour per reachable model state
+ExportState == PrintT(ToJson([hist |-> hist]))
 =============================================================================
